@@ -199,6 +199,12 @@ def handle (crude : Bool) (line : String) : String :=
     showWords (breakWords (cwOf crude) (limit.toNat?.getD 0) (parseWords ws))
   | ["ff", frs, lws] =>
     showGroups (wrapFirstFit (fun (f : Frag Float) => f) (parseFrags frs) (parseFloats lws))
+  | ["walg", alg, pen, ws, lws, mins] =>
+    -- `WrapAlgorithm::wrap` on hand-built words (any penalties, also on the last word)
+    let pn := parseNats pen
+    let p : Penalties := ⟨pn.getD 0 0, pn.getD 1 0, pn.getD 2 0, pn.getD 3 0, pn.getD 4 0⟩
+    let a : Alg := if alg == "o" then .optimalFit p else .firstFit
+    showOpt showGroups (wrapAlg (mkMinima p (parseMinTable mins)) a (parseWords ws) (parseNats lws))
   | ["of", frs, lws, pen, rows] => handleOf frs lws pen rows false
   | ["of", frs, lws, pen, rows, "shapeonly"] => handleOf frs lws pen rows true
   | ["wrap", o, ii, si, t, opps, mins] =>
